@@ -179,8 +179,12 @@ class SimplicialComplex:
                 # we're creating the top-most simplex, so use its name and attributes
                 s = self.addSimplex(id=id, fs=fs, attr=attr)
             else:
-                # we're adding a face, synthesise the name
-                s = self.addSimplex(fs=fs)
+                # we're adding a face, synthesise the name (avoiding the
+                # name requested for the top-most simplex)
+                fid = self._rep.newSimplex(len(bs) - 1)
+                while fid == id:
+                    fid = self._rep.newSimplex(len(bs) - 1)
+                s = self.addSimplex(id=fid, fs=fs)
 
         # return the simplex
         return s
